@@ -471,8 +471,11 @@ class Prop(object):
             r.viol('history', {'kind': what}, {'keyset': ks, 'hist': list(idx), 'depth': len(idx), 'first': idx[0]},
                    'history %s: %s' % ([str(o) for o in ops], detail))
 
+        can_decrypt = raws[0]['alg'] == 'rsa' or any(x['alg'] in ('ecdh', 'rsa') for x in raws[1:])
+
         def private_op(k, name):
-            if name == 'sign':
+            if name == 'sign' or (name == 'decrypt' and not can_decrypt):
+                # (a key set without an encryption-capable component signs instead)
                 return self._sign_and_check(k, raws, r)
             if name == 'decrypt':
                 m = pgpy.PGPMessage.new(b'secret', compression=pgpy.constants.CompressionAlgorithm.Uncompressed, format='b')
